@@ -1,9 +1,13 @@
 #!/bin/bash
-# tools/seed_check.sh <seed id> <Cnn> [tier]  -- apply the seeded patch to /repo, run the check, undo. Appends to seeded/<id>/check.log
+# tools/seed_check.sh <seed id> <Cnn> [tier]  -- run a check against a seeded change.  The change is applied to a scratch
+# worktree of /repo (never to /repo itself, so clean-tree runs can go on at the same time); the check reads the tree
+# from VERIF_REPO.  Appends to seeded/<id>/check.log.  The worktree is removed afterwards.
 ID=$1; P=$2; TIER=${3:-quick}
-cd /repo && git apply --check /verif/seeded/$ID/patch.diff || { echo "patch does not apply"; exit 3; }
-git apply /verif/seeded/$ID/patch.diff
-cd /verif && VERIF_NO_EVIDENCE=1 ./check $P --tier $TIER > /tmp/seedcheck_$ID.log 2>&1; RC=$?
-git -C /repo checkout -- .
+WT=/tmp/seedrepo.$$
+git -C /repo worktree add -q --detach $WT HEAD || exit 3
+trap 'git -C /repo worktree remove --force $WT; git -C /repo worktree prune' EXIT
+git -C $WT apply /verif/seeded/$ID/patch.diff || { echo "patch does not apply"; exit 3; }
+cd /verif && VERIF_REPO=$WT VERIF_NO_EVIDENCE=1 ./check $P --tier $TIER > /tmp/seedcheck_$ID.log 2>&1; RC=$?
 { echo "== ./check $P --tier $TIER with seeded/$ID applied: exit $RC"; grep "^VIOLATION\|^  what\|^KNOWN\|^INCONCLUSIVE\|done:" /tmp/seedcheck_$ID.log | cut -c1-500 | head -12; } | tee -a /verif/seeded/$ID/check.log
-git -C /repo status --short | grep -v otelcorecol
+# the harness go.mod files were regenerated for the scratch tree: put the committed ones (=> /repo) back
+cd /verif && git checkout -q -- $(git ls-files 'harness/*go.mod') && find harness -name .gomod.src -delete
